@@ -1,5 +1,6 @@
 import WitnessVerif.Model.Tile
 import WitnessVerif.Proofs.Core
+import WitnessVerif.Proofs.Tlog
 /-
 C18 — SumDB tile addressing and proofs match the reference tlog implementation.
 -/
@@ -71,6 +72,25 @@ theorem C18_reference_proof_accepted {α : Type} [DecidableEq α] (H : α → α
     (hm : 0 < m) (hmn : m ≤ D.length) :
     G.verifyConsistency H m D.length (M.rfcProof H e m D) (M.mth H e (D.take m)) (M.mth H e D) = true :=
   G.verifyConsistency_complete H e m D hm hmn
+
+/-- the proof the SumDB/Pixel feeders submit is what `tlog.ProveTree(t, n)` assembles from the subtree hashes
+    of the log's leaves: it IS the RFC 6962 proof PROOF(n, D[0:t]) (so the feeders' order of hashes is the wire
+    order the witness expects), for every pair of sizes `0 < n ≤ t` -/
+theorem C18_tlog_proof_is_rfc {α : Type} (H : α → α → α) (e : α) (D : List α) (t n : Nat)
+    (hn : 0 < n) (hnt : n ≤ t) (ht : t ≤ D.length) :
+    Tlog.proveTree H e D t n = some (M.rfcProof H e n (D.take t)) :=
+  Tlog.proveTree_eq_rfc H e D t n hn hnt ht
+
+/-- and therefore the witness's verifier accepts it against the two tree heads -/
+theorem C18_tlog_proof_accepted {α : Type} [DecidableEq α] (H : α → α → α) (e : α) (D : List α) (t n : Nat)
+    (hn : 0 < n) (hnt : n ≤ t) (ht : t ≤ D.length) :
+    ∃ p, Tlog.proveTree H e D t n = some p ∧
+      G.verifyConsistency H n t p (M.mth H e (D.take n)) (M.mth H e (D.take t)) = true := by
+  refine ⟨_, C18_tlog_proof_is_rfc H e D t n hn hnt ht, ?_⟩
+  have hlen : (D.take t).length = t := by rw [List.length_take]; omega
+  have h := G.verifyConsistency_complete H e n (D.take t) hn (by omega)
+  rw [hlen, List.take_take, Nat.min_eq_left hnt] at h
+  exact h
 
 /-- non-vacuity / regression examples at the carry boundaries of the path encoding -/
 example : tilePath 1000 999 = B.ofString "999" := by decide +kernel
